@@ -993,7 +993,7 @@ func TestVerifC14(t *testing.T) {
 	}
 	record(c14Spin())
 	rng := r.Rand()
-	for i := 0; i < r.N(2400, 60000); i++ {
+	for i := 0; i < r.N(2000, 60000); i++ {
 		record(c14Gen(rng.Fork(uint64(i)), r))
 	}
 }
